@@ -622,6 +622,103 @@ def translate_power_iteration():
     return '\n\n'.join(out), status
 
 
+# ---- ConstraintsOp.forward / inverse: the four branches, per element (C17) ---------------------------------------------------
+# each branch appends one expression; `self.sigmoid(z, beta=self.beta_sigmoid)` etc. are the *generated* functions `sig_c_*` above;
+# the branch conditions are pinned as source text (which case of bounds selects which branch is `M.boundCase` of the model)
+CONSTR_CONDS = [
+    '(lb is not None and (not torch.isneginf(torch.tensor(lb)))) and (ub is not None and (not torch.isposinf(torch.tensor(ub))))',
+    'lb is not None and (ub is None or torch.isposinf(torch.tensor(ub)))',
+    '(lb is None or torch.isneginf(torch.tensor(lb))) and ub is not None',
+    '(lb is None or torch.isneginf(torch.tensor(lb))) and (ub is None or torch.isposinf(torch.tensor(ub)))',
+]
+CONSTR_BRANCHES = ['both', 'lower', 'upper', 'none']
+CONSTR_INPUTS = {'both': ['item', 'lb', 'ub', 'self_beta_sigmoid'], 'lower': ['item', 'lb', 'self_beta_softplus'],
+                 'upper': ['item', 'ub', 'self_beta_softplus'], 'none': ['item']}
+CONSTR_FALLBACK = {
+    ('forward', 'both'): 'M.constrainFwd self_beta_sigmoid self_beta_sigmoid (.fin lb) (.fin ub) item',
+    ('forward', 'lower'): 'M.constrainFwd self_beta_softplus self_beta_softplus (.fin lb) .none item',
+    ('forward', 'upper'): 'M.constrainFwd self_beta_softplus self_beta_softplus .none (.fin ub) item',
+    ('forward', 'none'): 'item',
+    ('inverse', 'both'): 'M.constrainInv self_beta_sigmoid self_beta_sigmoid (.fin lb) (.fin ub) item',
+    ('inverse', 'lower'): 'M.constrainInv self_beta_softplus self_beta_softplus (.fin lb) .none item',
+    ('inverse', 'upper'): 'M.constrainInv self_beta_softplus self_beta_softplus .none (.fin ub) item',
+    ('inverse', 'none'): 'item',
+}
+for _m in ('forward', 'inverse'):
+    for _b in CONSTR_BRANCHES:
+        SITE_PROPS[f'constr_{_m}_{_b}'] = 'C17'
+_CONSTR_MAPS = {'self.sigmoid': ('sig_c_sigmoid', 'beta_sigmoid'), 'self.sigmoid_inverse': ('sig_c_sigmoid_inverse', 'beta_sigmoid'),
+                'self.softplus': ('sig_c_softplus', 'beta_softplus'), 'self.softplus_inverse': ('sig_c_softplus_inverse', 'beta_softplus')}
+
+
+def _constr_hook(node, ctx, poisoned):
+    name = ast.unparse(node.func)
+    if name in _CONSTR_MAPS and len(node.args) == 1 and len(node.keywords) == 1 and node.keywords[0].arg == 'beta':
+        fn_, beta = _CONSTR_MAPS[name]
+        if ast.unparse(node.keywords[0].value) != f'self.{beta}':
+            raise py2lean.Untranslatable(f'{name} called with beta={ast.unparse(node.keywords[0].value)}')
+        return f'({fn_} {py2lean.fexpr(node.args[0], ctx, poisoned)} {py2lean.fexpr(node.keywords[0].value, ctx, poisoned)})'
+    return None
+
+
+def translate_constraints():
+    U = py2lean.Untranslatable
+    out, status = [], {}
+    py2lean.CALL_HOOKS.append(_constr_hook)
+    try:
+        for method in ('forward', 'inverse'):
+            exprs, err, line = {}, None, 0
+            try:
+                tree = ast.parse((SRC / 'operators/ConstraintsOp.py').read_text())
+                fn = _find(tree, 'ConstraintsOp', method)
+                line = fn.lineno
+                loops = [st for st in fn.body if isinstance(st, ast.For)]
+                if len(loops) != 1 or ast.unparse(loops[0].target) != '(item, lb, ub)' \
+                        or not ast.unparse(loops[0].iter).endswith('self.lower_bounds, self.upper_bounds, strict=False)'):
+                    raise U('loop over (item, lb, ub) not found')
+                ifs = [st for st in loops[0].body if isinstance(st, ast.If)]
+                if len(ifs) != 1 or len(loops[0].body) != 1:
+                    raise U('loop body is not a single if-chain')
+                node, k = ifs[0], 0
+                while True:
+                    if k >= 4 or ast.unparse(node.test) != ast.unparse(ast.parse(CONSTR_CONDS[k], mode='eval').body):
+                        raise U(f'branch {k}: condition rewritten')
+                    if len(node.body) != 1 or not (isinstance(node.body[0], ast.Expr) and isinstance(node.body[0].value, ast.Call)
+                                                   and isinstance(node.body[0].value.func, ast.Attribute) and node.body[0].value.func.attr == 'append'
+                                                   and len(node.body[0].value.args) == 1):
+                        raise U(f'branch {k}: body is not a single append')
+                    ctx = py2lean.Ctx(CONSTR_INPUTS[CONSTR_BRANCHES[k]])
+                    term = py2lean.fexpr(node.body[0].value.args[0], ctx, set())
+                    if ctx.params != CONSTR_INPUTS[CONSTR_BRANCHES[k]]:
+                        raise U(f'branch {k}: free names {ctx.params}')
+                    exprs[CONSTR_BRANCHES[k]] = term
+                    k += 1
+                    if len(node.orelse) == 1 and isinstance(node.orelse[0], ast.If):
+                        node = node.orelse[0]
+                    elif not node.orelse:
+                        break
+                    else:
+                        raise U('else branch')
+                if k != 4:
+                    raise U(f'{k} branches')
+            except (U, OSError, SyntaxError) as e:
+                err = str(e)
+            for b in CONSTR_BRANCHES:
+                name = f'constr_{method}_{b}'
+                sig = ' '.join(f'({p_} : K)' for p_ in CONSTR_INPUTS[b])
+                if err is None:
+                    out.append(f'/-- translated from `operators/ConstraintsOp.py:{method}` (line {line}), branch `{b}` -/\n'
+                               f'def {name} {sig} : K :=\n  {exprs[b]}\ndef {name}_translated : Bool := true')
+                    status[name] = 'translated'
+                else:
+                    out.append(f'/-- FALLBACK (source outside the translatable fragment: {err[:100]}): the hand-written model -/\n'
+                               f'def {name} {sig} : K :=\n  {CONSTR_FALLBACK[(method, b)]}\ndef {name}_translated : Bool := false')
+                    status[name] = f'fallback: {err}'
+    finally:
+        py2lean.CALL_HOOKS.remove(_constr_hook)
+    return '\n\n'.join(out), status
+
+
 def _find(tree, cls, func):
     scope = tree
     if cls is not None:
@@ -683,6 +780,9 @@ def generate():
         text, st = translate_float_site(site)
         out += [text, '']
         status['sig_' + site['name']] = st
+    text, st = translate_constraints()
+    out += ['/-! ConstraintsOp: the branches of forward / inverse, composed of the generated elementary maps -/', text, '']
+    status.update(st)
     out += ['end Signal', '', '/-! Rotation kernels, component-wise -/', 'section Rot',
             'variable {K : Type} [Add K] [Sub K] [Mul K] [Neg K] [OfNat K 2]', '']
     for site in ROT_SITES:
